@@ -3,7 +3,7 @@ import z3
 from ..engine import AND, OR, NOT
 from ..values import is_variant, payload
 from .. import replay as rp
-from .setops import bits_for, fnr, decode_ab, prog_ab, built
+from .setops import premise_group, constructor_group, bits_for, fnr, decode_ab, prog_ab, built
 
 from ..validate import validation_group
 BOUNDS = {
@@ -26,7 +26,9 @@ def groups(tier):
             gs.append({'name': 'sat-hybrid-%dx%d' % (ka, kb), 'fn': sat_group, 'args': {'ka': ka, 'kb': kb, 'L': 1, 'hybrid': True}})
     if tier != 'quick':
         gs.append({'name': 'sat-concrete-1x1', 'fn': sat_group, 'args': {'ka': 1, 'kb': 1, 'L': 2, 'hybrid': False}})
+    gs.append({'name': 'constructor', 'fn': constructor_group, 'args': {'L': 1 if tier == 'quick' else 2}})
     gs.append(validation_group(('difference',), tier))
+    gs.append(premise_group(tier))
     return gs
 
 
@@ -56,8 +58,8 @@ def judge_diff(case):
     return prog, judge
 
 
-def rank_group(s, ka, kb, hybrid=False):
-    h = s.harness(L=1, cap_bs=max(ka * 2 ** kb, 2 * ka * kb), rank_bits=bits_for(2 * (ka + kb) + 1), hybrid=hybrid, field_bits=(3 if hybrid else 0))
+def rank_group(s, ka, kb, hybrid=False, concrete=False):
+    h = s.harness(L=1, cap_bs=max(ka * 2 ** kb, 2 * ka * kb), rank_bits=(0 if concrete else bits_for(2 * (ka + kb) + 1)), hybrid=hybrid, field_bits=(3 if hybrid else 0))
     s.ri_sites(h)
     A, _ = h.range_('A', ka, allow_any=True)
     B, _ = h.range_('B', kb, allow_any=True)
